@@ -133,6 +133,7 @@ impl Node {
     pub fn as_bad(id: NodeId, addr: SocketAddr) -> (r: Node)
         ensures r.handle.id == id, r.handle.addr == addr, r.wf(),
             r.last_response is None,
+            r == (Node { handle: NodeHandle { id, addr }, last_request: None, last_response: None, last_local_request: None, refresh_requests: 0 }),
             r.status_at(clock()) == NodeStatus::Bad, // @C10.never_answered_is_bad
     {
         Node {
@@ -486,8 +487,22 @@ pub fn leading_bit_count(local_node: NodeId, remote_node: NodeId) -> (r: usize)
 { unimplemented!() }
 
 // the placeholder `Bucket::new` fills every slot with (Node::as_bad of id 0 / 127.0.0.1:0)
-pub uninterp spec fn filler() -> Node;
-pub broadcast axiom fn filler_ax() ensures #[trigger] filler().last_response is None, filler().wf();
+// TRUSTED: std::net constructors are uninterpreted functions of their arguments
+pub uninterp spec fn ipv4_of(a: u8, b: u8, c: u8, d: u8) -> Ipv4Addr;
+pub uninterp spec fn sockv4_of(ip: Ipv4Addr, port: u16) -> SocketAddrV4;
+pub assume_specification[ Ipv4Addr::new ](a: u8, b: u8, c: u8, d: u8) -> (r: Ipv4Addr) ensures r == ipv4_of(a, b, c, d);
+pub assume_specification[ SocketAddrV4::new ](ip: Ipv4Addr, port: u16) -> (r: SocketAddrV4) ensures r == sockv4_of(ip, port);
+#[verifier::external_type_specification]
+#[verifier::external_body]
+pub struct ExIpv4Addr(Ipv4Addr);
+pub open spec fn all_zero(a: [u8; 20]) -> bool { forall|i: int| 0 <= i < 20 ==> #[trigger] a[i] == 0u8 }
+pub open spec fn zero_id() -> InfoHash { InfoHash(choose|a: [u8; 20]| all_zero(a)) }
+/// the never-answered placeholder (id 0 at 127.0.0.1:0) with which Bucket::new fills every slot
+pub open spec fn filler() -> Node {
+    Node { handle: NodeHandle { id: zero_id(), addr: SocketAddr::V4(sockv4_of(ipv4_of(127, 0, 0, 1), 0)) },
+           last_request: None, last_response: None, last_local_request: None, refresh_requests: 0 }
+}
+pub broadcast proof fn filler_ax() ensures #[trigger] filler().last_response is None, filler().wf() {}
 pub open spec fn live(n: Node) -> bool { st(n) != NodeStatus::Bad }
 
 // a bucket that received `cnt` live nodes since it was created: they sit in front, placeholders behind
@@ -512,11 +527,51 @@ pub proof fn lemma_add_to_shaped(b: Seq<Node>, cnt: int, x: Node)
     }
 }
 
+//@begin const src/info_hash.rs - NODE_ID_LEN
+pub const NODE_ID_LEN: usize = INFO_HASH_LEN;
+//@end
+impl vstd::std_specs::convert::FromSpecImpl<[u8; INFO_HASH_LEN]> for InfoHash {
+    open spec fn obeys_from_spec() -> bool { true }
+    open spec fn from_spec(hash: [u8; INFO_HASH_LEN]) -> InfoHash { InfoHash(hash) }
+}
+impl From<[u8; INFO_HASH_LEN]> for InfoHash {
+//@begin fn src/info_hash.rs impl:From<[u8;INFO_HASH_LEN]>@for@InfoHash from
+    fn from(hash: [u8; INFO_HASH_LEN]) -> (r: InfoHash) ensures r == InfoHash(hash) {
+        Self(hash)
+    }
+//@end
+}
 impl Bucket {
-    #[verifier::external_body]
+//@begin fn src/bucket.rs impl:Bucket new props=C08
     pub fn new() -> (b: Bucket)
-        ensures b.wf(), forall|i: int| 0 <= i < 8 ==> #[trigger] b.nodes[i] == filler()
-    { unimplemented!() }
+        ensures b.wf(), forall|i: int| 0 <= i < 8 ==> #[trigger] b.nodes[i] == filler(), // @C08.new_bucket_is_empty
+    {
+        let id = NodeId::from([0u8; NODE_ID_LEN]);
+        proof {
+            let z = [0u8; NODE_ID_LEN];
+            let c = choose|a: [u8; 20]| all_zero(a);
+            assert(all_zero(z));
+            assert(z =~= c);
+            assert(id == zero_id());
+        }
+
+        let ip = Ipv4Addr::new(127, 0, 0, 1);
+        let addr = SocketAddr::V4(SocketAddrV4::new(ip, 0));
+
+        Bucket {
+            nodes: [
+                Node::as_bad(id, addr),
+                Node::as_bad(id, addr),
+                Node::as_bad(id, addr),
+                Node::as_bad(id, addr),
+                Node::as_bad(id, addr),
+                Node::as_bad(id, addr),
+                Node::as_bad(id, addr),
+                Node::as_bad(id, addr),
+            ],
+        }
+    }
+//@end
 
 
     pub open spec fn nodup(&self) -> bool {
